@@ -18,6 +18,13 @@
 //   as how mode n seed kind same     File (how 0) / TextFile (how 1) object opened WRITE / APPEND, n bytes written and NOT closed, then the object is
 //                                    assigned File(the same path) (same&1) or File(another existing path): the handle is closed by the assignment;
 //                                    size(), content(), text() through the object and the fresh-object checks must see the target file
+//   sl how n seed kind               through a symbolic link c17_link.dat -> c17_main.dat (made by the harness with symlink(2)): how 0 verify the
+//                                    file through the link, 1 File(link).put, 2 TextFile(link).write, 3 TextFile(link).append, 4 File(link, APPEND)
+//                                    write; afterwards the file is verified through the real path AND through the link
+//   ms how                           move onto itself under another spelling (0 Directory::move(P, dir+"/"), 1 dir+"/./name", 2 dir+"/sub/../name",
+//                                    3 File::move(dir+"//name"), 4 File::move(dir+"/"), 5 relative source / absolute destination): returns true and
+//                                    the file is untouched; 6 move onto an existing different file, 7 into a directory holding another file of that name
+//   cp / mv bit3                     the destination directory (bit1) is given as a symbolic link to it
 //   so how mode n1 seed1 kind q fl n2 seed2   one File (how 0) / TextFile (how 1) object for writing AND reading: open(mode), write n1 bytes,
 //                                    [flush()], info query q on the OPEN object (0 none, 1 size, 2 lastModified, 3 isFile, 4 isDirectory,
 //                                    5 creationDate, 6 exists), write n2 more bytes, close(); then size(), content(), firstBytes(),
@@ -290,6 +297,8 @@ static void cleanup()
 	unlink((d + "/c17_sub/c17_main.dat").c_str());
 	unlink((d + "/c17_sub/c17_other.dat").c_str());
 	rmdir((d + "/c17_sub").c_str());
+	unlink((d + "/c17_link.dat").c_str());
+	unlink((d + "/c17_sublink").c_str());
 	if (const char* xdev = getenv("VF_XDEV_DIR"))
 		if (*xdev)
 			unlink((std::string(xdev) + "/vf_c17_" + std::to_string((long)getpid()) + ".dat").c_str());
@@ -539,6 +548,105 @@ static void run_history(const vf::Case& c)
 			h.model = expect;
 			h.exists = wrote = true;
 		}
+		else if (o.name == "sl") {
+			int how = (int)(((o.i(0) % 5) + 5) % 5);
+			if (how == 0 && !h.exists)
+				continue;
+			std::string link = ref::tmpdir() + "/c17_link.dat";
+			if (symlink("c17_main.dat", link.c_str()) != 0)
+				VF_CHECK(errno == EEXIST, "harness: symlink failed, errno ", errno);
+			String lp = AS(link);
+			std::string data = (how == 2 || how == 3) ? text_content(o.i(1), (uint64_t)o.i(2), (int)o.i(3)) : content(o.i(1), (uint64_t)o.i(2), (int)o.i(3));
+			static const char* names[] = {"read only", "File(link).put", "TextFile(link).write", "TextFile(link).append", "File(link, APPEND) write"};
+			if (how == 1) {
+				VF_CHECK(File(lp).put(BA(data)), ctx, ": File(link).put returned false");
+				h.model = data;
+			}
+			else if (how == 2) {
+				VF_CHECK(TextFile(lp).write(AS(data)), ctx, ": TextFile(link).write returned false");
+				h.model = data;
+			}
+			else if (how == 3) {
+				VF_CHECK(TextFile(lp).append(AS(data)), ctx, ": TextFile(link).append returned false");
+				h.model = h.exists ? h.model + data : data;
+			}
+			else if (how == 4) {
+				File f(lp, File::APPEND);
+				VF_CHECK(!!f, ctx, ": cannot open the link for APPEND");
+				VF_CHECK(f.write(data.data(), (int)data.size()) == (int)data.size(), ctx, ": write returned a short count");
+				f.close();
+				h.model = h.exists ? h.model + data : data;
+			}
+			h.exists = true;
+			ctx += vf::str(" through a symbolic link to the file (", names[how], how ? vf::str(", ", data.size(), " bytes") : std::string(), ")");
+			std::string c1 = ctx + ", read through the real path", c2 = ctx + ", read through the link";
+			verify(P(), h.model, c1.c_str());
+			verify(link, h.model, c2.c_str());
+			{
+				File lf(lp);
+				VF_CHECK(lf.isFile() && !lf.isDirectory() && lf.exists(), ctx, ": isFile()/isDirectory()/exists() through the link");
+			}
+			continue;
+		}
+		else if (o.name == "ms") {
+			if (!h.exists)
+				continue;
+			int how = (int)(((o.i(0) % 8) + 8) % 8);
+			std::string d = ref::tmpdir(), other = content(41, (uint64_t)o.i(0) + 3, 2);
+			if (how <= 5) {
+				std::string from = P(), to;
+				bool viaFile = false;
+				if (how == 0)
+					to = d + "/";
+				else if (how == 1)
+					to = d + "/./c17_main.dat";
+				else if (how == 2) {
+					mkdir((d + "/c17_sub").c_str(), 0755);
+					to = d + "/c17_sub/../c17_main.dat";
+				}
+				else if (how == 3) {
+					to = d + "//c17_main.dat";
+					viaFile = true;
+				}
+				else if (how == 4) {
+					to = d + "/";
+					viaFile = true;
+				}
+				else {
+					// relative spelling of the source, absolute of the destination (when the temp directory lies below the working directory)
+					char cwd[4096];
+					std::string c = getcwd(cwd, sizeof cwd) ? std::string(cwd) + "/" : std::string();
+					to = d + "/c17_main.dat";
+					if (!c.empty() && d.compare(0, c.size(), c) == 0)
+						from = d.substr(c.size()) + "/c17_main.dat";
+					else
+						to = d + "/./c17_main.dat";
+				}
+				bool ok = viaFile ? File(AS(from)).move(AS(to)) : Directory::move(AS(from), AS(to));
+				ctx += vf::str(viaFile ? " File(\"" : " Directory::move(\"", from, viaFile ? "\").move(\"" : "\", \"", to, "\"): the destination is the file itself under another spelling");
+				VF_CHECK(ok, ctx, ": returned false");
+				VF_CHECK(ref::exists(P()), ctx, ": the file is gone");
+				verify(P(), h.model, ctx.c_str(), false);
+			}
+			else {
+				std::string to = d + "/c17_other.dat", dest = to;
+				if (how == 7) {
+					mkdir((d + "/c17_sub").c_str(), 0755);
+					to = d + "/c17_sub";
+					dest = to + "/c17_main.dat";
+				}
+				VF_CHECK(ref::spit(dest, other), "harness: cannot write ", dest);
+				bool ok = Directory::move(path, AS(to));
+				ctx += how == 6 ? " move onto an existing different file" : " move into a directory that holds another file of that name";
+				VF_CHECK(ok, ctx, ": returned false");
+				VF_CHECK(!ref::exists(P()), ctx, ": the source still exists");
+				verify(dest, h.model, ctx.c_str(), false);
+				VF_CHECK(Directory::move(AS(dest), path), ctx, ": move back returned false");
+				std::string c1 = ctx + ": after moving back";
+				verify(P(), h.model, c1.c_str(), false);
+			}
+			continue;
+		}
 		else if (o.name == "so") {
 			// one object writes, is queried while open, is closed and then read: ordinary use of a File / TextFile
 			int how = (int)(o.i(0) & 1), mode = (int)(((o.i(1) % 3) + 3) % 3);
@@ -637,11 +745,22 @@ static void run_history(const vf::Case& c)
 				how &= 1;
 				vf::stats().cls("hist.cross_device_target");
 			}
+			bool vialink = false;
 			if (how >= 2) {
 				mkdir((d + "/c17_sub").c_str(), 0755);
 				to = d + "/c17_sub";
+				if (o.i(0) & 8) {
+					// the directory is named through a symbolic link
+					to = d + "/c17_sublink";
+					if (symlink("c17_sub", to.c_str()) != 0)
+						VF_CHECK(errno == EEXIST, "harness: symlink failed, errno ", errno);
+					vialink = true;
+					vf::stats().cls("hist.copy_or_move_into_symlinked_directory");
+				}
 				dest = to + "/c17_main.dat";
 			}
+			if (vialink)
+				ctx += " (directory given as a symbolic link)";
 			if (o.name == "cp") {
 				bool ok = (how & 1) ? File(path).copy(AS(to)) : Directory::copy(path, AS(to));
 				VF_CHECK(ok, ctx, ": copy returned false");
@@ -886,13 +1005,21 @@ static Gen<vf::Op> histop()
 			o.name = "fs";
 			o.a = {*vf::irange<int>(0, 1), seed, *vf::irange<int>(0, 12)};
 		}
-		else if (w < 72) {
+		else if (w < 67) {
 			o.name = "tw";
 			o.a = {*gen::elementOf(std::vector<int>{0, 1, 2, 2, 2, 3, 4, 5, 6}), *sizegen(false), seed, *vf::irange<int>(1, 3)};
 		}
-		else if (w < 82) {
+		else if (w < 75) {
 			o.name = "tm";
 			o.a = {*gen::elementOf(std::vector<int>{0, 1, 1, 2}), seed, *vf::irange<int>(0, 8)};
+		}
+		else if (w < 79) {
+			o.name = "sl";
+			o.a = {*gen::elementOf(std::vector<int>{0, 0, 1, 2, 3, 4}), *sizegen(false), seed, *vf::irange<int>(0, 3)};
+		}
+		else if (w < 82) {
+			o.name = "ms";
+			o.a = {*vf::irange<int>(0, 7)};
 		}
 		else if (w < 90) {
 			// one object for writing, querying and reading
@@ -906,11 +1033,11 @@ static Gen<vf::Op> histop()
 		}
 		else if (w < 97) {
 			o.name = "cp";
-			o.a = {*vf::irange<int>(0, 7)};
+			o.a = {*vf::irange<int>(0, 15)};
 		}
 		else {
 			o.name = "mv";
-			o.a = {*vf::irange<int>(0, 7)};
+			o.a = {*vf::irange<int>(0, 15)};
 		}
 		return o;
 	});
@@ -1102,6 +1229,26 @@ static void classify_hist(const vf::Case& c)
 			else
 				size = o.i(1);
 			exists = true;
+		}
+		else if (o.name == "sl") {
+			int how = (int)(o.i(0) % 5);
+			if (how == 0 && !exists)
+				continue;
+			static const char* nm[] = {"read_only", "File.put", "TextFile.write", "TextFile.append", "File.APPEND_write"};
+			st.cls(std::string("hist.through_symlink.") + nm[how]);
+			if (how == 1 || how == 2)
+				size = o.i(1);
+			else if (how >= 3)
+				size = (exists ? size : 0) + o.i(1);
+			if (size >= 0 && size != 12)
+				nt = true; // (12 = length of the link's own target string)
+			exists = true;
+		}
+		else if (o.name == "ms") {
+			if (exists)
+				st.cls((o.i(0) % 8) <= 5 ? "hist.move_onto_itself_other_spelling" : "hist.move_onto_existing_other_file");
+			if (exists && (o.i(0) % 8) <= 5)
+				nt = true;
 		}
 		else if (o.name == "as") {
 			bool same = (o.i(5) & 1) != 0;
